@@ -131,6 +131,19 @@ def r4_1(ctx):
     y_lit = ("yield", f"(start, {mv}.group(1)[len({ESC}):], None)")
     from ..yieldpaths import resolve as _resolve
     bodies = [_resolve(b, keep=("start", "position")) for b in lp[3]]
+    # the parity clauses below are phrased over the offset variable `start`; a tokenizer that carries the offset in another
+    # variable (e.g. an extracted helper working on its own copy) is outside what they can decide
+    for b_ in bodies:
+        for e_ in b_:
+            if e_[0] == "set" and e_[1] not in ("start", "position") and "start" in (e_[2] or "").replace("(", " ").replace(")", " ").replace(",", " ").split() and e_[1].isidentifier():
+                raise AnalysisError(f"markup._parse: the offset is also carried in `{e_[1]}` (a copy of `start`); the backslash-parity clauses are phrased over `start` alone and are not decided for this form")
+            if e_[0] == "yield":
+                try:
+                    y_ = ast.parse(e_[1], mode="eval").body
+                except SyntaxError:
+                    continue
+                if isinstance(y_, ast.Tuple) and y_.elts and not (isinstance(y_.elts[0], ast.Name) and y_.elts[0].id in ("start", "position")) and not (isinstance(y_.elts[0], ast.BinOp) and "start" in norm(y_.elts[0]).split()):
+                    raise AnalysisError(f"markup._parse: a token is emitted at offset `{norm(y_.elts[0])}`, not at the loop's own `start` / `position`; the backslash-parity clauses are not decided for this form")
     # equal texts under premises read off the regex itself: group 2 is a run of backslashes only, so any prefix of it of length
     # k is k backslashes; group 1 is group 2 + '[' + group 3 + ']' and the whole match, so the match without its backslashes is
     # the source text from one character before group 3 to the end of the match
